@@ -168,6 +168,7 @@ def _get_region_params(region, shape_template, precision=8):
     ellipse_names = ('ellipse', 'ellipseannulus')
 
     param = {}
+    region_frame = None
     for param_name in region._params:
         if param_name in ('text',):
             continue
@@ -197,7 +198,12 @@ def _get_region_params(region, shape_template, precision=8):
         elif isinstance(value, SkyCoord):
             # a DS9 frame name stands for the frame with its default
             # attributes (e.g., 'fk5' is FK5 at equinox J2000)
-            default_frame = type(value.frame)()
+            # the region is written under the frame name of its first
+            # coordinate; all its coordinates are written in that frame
+            # (e.g., the end point of a line given in another frame)
+            if region_frame is None:
+                region_frame = type(value.frame)()
+            default_frame = region_frame
             if not value.frame.is_equivalent_frame(default_frame):
                 value = value.transform_to(default_frame,
                                            merge_attributes=False)
